@@ -66,8 +66,20 @@ Forbidden(a) ==
 
 (* operations whose failure the specification decides; "bad" operations    *)
 (* (wrongly typed arguments, C14 / C11) must raise                         *)
+(* Updates recorded from the repository's own test suite carry arbitrary    *)
+(* callables; they are judged on their FRAME: unselected points untouched, *)
+(* length and order kept, return value = number of selected points that    *)
+(* differ afterwards; whether such a call raises is not decided here, but  *)
+(* a raised call must leave the contents alone.                            *)
+IsOpaqueUpd(a) == a.op = "update_opaque"
+FrameOK(a, ev) ==
+  /\ Len(ev.store) = Len(store)
+  /\ \A i \in 1..Len(store) : i \notin Sel(store, a.q, a.m) => ev.store[i] = store[i]
+ChangedCount(a, ev) == Cardinality({i \in Sel(store, a.q, a.m) : ev.store[i] # store[i]})
+
 RaisesOK(a, ev) ==
-  CASE Forbidden(a) -> Raised(ev)
+  CASE IsOpaqueUpd(a) -> TRUE
+    [] Forbidden(a) -> Raised(ev)
     [] a.op = "bad" -> /\ Raised(ev) = MustRaise(a, store)
                        /\ (Raised(ev) => ev.exc \in {"ValueError", "TypeError"})
     [] OTHER -> Raised(ev) = MustRaise(a, store)
@@ -172,9 +184,15 @@ FaultFailing(a, ev) ==
 Failing(a, ev) ==
   IF HasFault(ev) THEN FaultFailing(a, ev) ELSE
      (IF ~ RaisesOK(a, ev) THEN {[clause |-> "raises", expected |-> Bool01(MustRaise(a, store))]} ELSE {})
-  \cup (IF RaisesOK(a, ev) /\ ~ Raised(ev) /\ ev.res # Result(a, store)
-        THEN {[clause |-> "result", expected |-> Result(a, store)]} ELSE {})
-  \cup (IF ~ NoStore(ev) /\ ev.store # ExpStore(a) THEN {[clause |-> "store", expected |-> ExpStore(a)]} ELSE {})
+  \cup (IF IsOpaqueUpd(a)
+        THEN (IF ~ Raised(ev) /\ Len(ev.store) = Len(store) /\ ev.res # ChangedCount(a, ev)
+              THEN {[clause |-> "result", expected |-> ChangedCount(a, ev)]} ELSE {})
+        ELSE (IF RaisesOK(a, ev) /\ ~ Raised(ev) /\ ev.res # Result(a, store)
+              THEN {[clause |-> "result", expected |-> Result(a, store)]} ELSE {}))
+  \cup (IF IsOpaqueUpd(a)
+        THEN (IF (Raised(ev) /\ ev.store # store) \/ (~ Raised(ev) /\ ~ FrameOK(a, ev))
+              THEN {[clause |-> "store", expected |-> store]} ELSE {})
+        ELSE (IF ~ NoStore(ev) /\ ev.store # ExpStore(a) THEN {[clause |-> "store", expected |-> ExpStore(a)]} ELSE {}))
   \cup (IF ~ ValidAllowed(a, store, ixValid, ev.valid = 1, Raised(ev)) THEN {[clause |-> "valid", expected |-> 1]} ELSE {})
   \cup (IF ~ IndexOK(ev) THEN {[clause |-> "index", expected |-> ev.ix.fresh]} ELSE {})
   \cup (IF ~ NowOK(a, store) THEN {[clause |-> "now", expected |-> NowBase]} ELSE {})
